@@ -51,6 +51,7 @@ static void printMesh(const std::string& name, const Manifold& m) {
 struct Parser {
   std::istringstream& in;
   bool eager;
+  bool warp = false;
   Manifold force(Manifold m) {
     if (eager) (void)m.NumTri();
     return m;
@@ -107,6 +108,22 @@ struct Parser {
       in >> x >> y >> z;
       Manifold a = expr();
       return force(a.Translate(vec3(x, y, z)));
+    }
+    if (t == "AF") {
+      // AF m00 m01 m02 m10 m11 m12 m20 m21 m22 t0 t1 t2 e : general integer affine map p -> M p + t through
+      // Manifold::Transform(mat3x4) (lazy/eager), or -- mode 2 -- applied vertex by vertex with Warp (rebuilds the collider)
+      double m[9], tr[3];
+      for (auto& x : m) in >> x;
+      for (auto& x : tr) in >> x;
+      Manifold a = expr();
+      if (warp) {
+        return force(a.Warp([=](vec3& v) {
+          vec3 p = v;
+          for (int i = 0; i < 3; ++i) v[i] = m[3 * i] * p.x + m[3 * i + 1] * p.y + m[3 * i + 2] * p.z + tr[i];
+        }));
+      }
+      mat3x4 M(vec3(m[0], m[3], m[6]), vec3(m[1], m[4], m[7]), vec3(m[2], m[5], m[8]), vec3(tr[0], tr[1], tr[2]));
+      return force(a.Transform(M));
     }
     if (t == "GB") {
       // GB <kind U|S> <via batch|chain> <n> <G> <nbars> { <pos> x0 y0 z0 x1 y1 z1 }...
@@ -245,7 +262,7 @@ int main() {
       int mode;
       in >> mode;
       try {
-        Parser ps{in, mode == 1};
+        Parser ps{in, mode == 1, mode == 2};
         Manifold r = ps.expr();
         int st = (int)r.Status();
         printMesh("r" + id, r);
